@@ -107,13 +107,15 @@ template< class T> template< class... Args>
    T& Singleton< T>::instance( Args&&... args)
 {
 
+   // the pointer must always be read with the mutex locked: an unlocked read
+   // (double-checked locking) of the non-atomic pointer is a data race with the
+   // thread that creates the object, which may then be used before it is
+   // completely constructed
+   const std::lock_guard< std::mutex>  lg( mMutex);
+
    if (mpObject.get() == nullptr)
    {
-      const std::lock_guard< std::mutex>  lg( mMutex);
-      if (mpObject.get() == nullptr)
-      {
-         mpObject.reset( new T( std::forward< Args>( args)...));
-      } // end if
+      mpObject.reset( new T( std::forward< Args>( args)...));
    } // end if
 
    return *mpObject;
